@@ -139,6 +139,38 @@ func (m PMut) apply(base ParamsSpec) (ParamsSpec, bool) {
 			return p, false
 		}
 		p.Nonce = gen.BigOf(v.Sub(v, big.NewInt(1)))
+	case "nonce<<8":
+		// the same digits shifted by whole bytes (n and n*256 differ only in length / trailing zero bytes)
+		v := p.Nonce.Int()
+		if v.Sign() == 0 || len(v.Bytes()) >= 32 {
+			return p, false
+		}
+		p.Nonce = gen.BigOf(v.Lsh(v, 8))
+	case "nonce>>8":
+		v := p.Nonce.Int()
+		if v.BitLen() <= 8 {
+			return p, false
+		}
+		p.Nonce = gen.BigOf(v.Rsh(v, 8))
+	case "nonce-bit":
+		v := p.Nonce.Int()
+		v.SetBit(v, m.I%256, v.Bit(m.I%256)^1)
+		p.Nonce = gen.BigOf(v)
+	case "nonce-swap-ends":
+		// the byte string reversed (same multiset of bytes)
+		b := p.Nonce.Int().Bytes()
+		if len(b) < 2 {
+			return p, false
+		}
+		r := make([]byte, len(b))
+		for i := range b {
+			r[i] = b[len(b)-1-i]
+		}
+		v := new(big.Int).SetBytes(r)
+		if v.Cmp(p.Nonce.Int()) == 0 {
+			return p, false
+		}
+		p.Nonce = gen.BigOf(v)
 	case "ledger":
 		p.Ledger = !p.Ledger
 	case "virtual":
@@ -205,6 +237,10 @@ func drawIDCase(t *rapid.T) IDCase {
 	}
 	add(PMut{Kind: "nonce+1"})
 	add(PMut{Kind: "nonce-1"})
+	add(PMut{Kind: "nonce<<8"})
+	add(PMut{Kind: "nonce>>8"})
+	add(PMut{Kind: "nonce-bit", I: rapid.IntRange(0, 255).Draw(t, "noncebit")})
+	add(PMut{Kind: "nonce-swap-ends"})
 	add(PMut{Kind: "ledger"})
 	add(PMut{Kind: "virtual"})
 	add(PMut{Kind: "aux", I: rapid.IntRange(0, 255).Draw(t, "auxpos"), V: rapid.IntRange(1, 255).Draw(t, "auxxor")})
@@ -494,7 +530,7 @@ func actionMachineID(c IDCase, acc map[wallet.BackendID]wallet.Account, o *h.Out
 	return nil
 }
 
-const ruleID = "a parameter set within the documented limits (2-8 participants: pool keys or arbitrary 64-byte sim addresses incl. short coordinates and duplicates; app none/payment/mock; nonce 0..2^256-1 biased to the bounds; duration 1..2^64-1; flags; aux) and ALL its applicable single-field variants: duration +-1, every participant replaced, one address bit flipped, the coordinates of one address exchanged, every pair of different participants swapped, app added / removed / definition byte changed / kind changed, nonce +-1, ledger flag, virtual flag (aux and participant count variants are only classified). Oracle: for the base and every variant the ID is non-zero and equal for the same arguments constructed twice, Clone(), CalcID, decode(encode()), decode(independent reference encoding), decoding into a Params value that held other parameters, clone of the decoded value and the protobuf round trip (FromParams, Marshal, Unmarshal, ToParams); over all pairs of {base, variants}: IDs differ iff the canonical tuples of the listed fields differ; a StateMachine over the base (own account = first pool-key participant) reports the ID, the state created by Init (generated valid allocation, also with locked funds) and its clone carry it, and after all signatures and EnableInit the current state carries it; for mock-app bases also the state created by ActionMachine.Init (harness action app with a valid initial allocation). non-trivial = at least one pair of different parameter sets compared; distinct by SHA-256 of the canonical case JSON"
+const ruleID = "a parameter set within the documented limits (2-8 participants: pool keys or arbitrary 64-byte sim addresses incl. short coordinates and duplicates; app none/payment/mock; nonce 0..2^256-1 biased to the bounds; duration 1..2^64-1; flags; aux) and ALL its applicable single-field variants: duration +-1, every participant replaced, one address bit flipped, the coordinates of one address exchanged, every pair of different participants swapped, app added / removed / definition byte changed / kind changed, nonce +-1, nonce shifted by one byte either way, one nonce bit flipped, nonce bytes reversed, ledger flag, virtual flag (aux and participant count variants are only classified). Oracle: for the base and every variant the ID is non-zero and equal for the same arguments constructed twice, Clone(), CalcID, decode(encode()), decode(independent reference encoding), decoding into a Params value that held other parameters, clone of the decoded value and the protobuf round trip (FromParams, Marshal, Unmarshal, ToParams); over all pairs of {base, variants}: IDs differ iff the canonical tuples of the listed fields differ; a StateMachine over the base (own account = first pool-key participant) reports the ID, the state created by Init (generated valid allocation, also with locked funds) and its clone carry it, and after all signatures and EnableInit the current state carries it; for mock-app bases also the state created by ActionMachine.Init (harness action app with a valid initial allocation). non-trivial = at least one pair of different parameter sets compared; distinct by SHA-256 of the canonical case JSON"
 
 func TestID(t *testing.T) {
 	rec := h.Begin("C17", "id")
